@@ -244,6 +244,9 @@ class Session:
             return tuple(vals)
         if self.conc.container == "ndarray" and len(types) == 1 and "text" not in types:
             return np.array(vals)
+        if len(types) > 1 and self.rnd.random() < 0.4:
+            # mixed content handed in as a NumPy object array
+            return np.array(vals, dtype=object)
         return list(vals)
 
     def apply(self, act):
@@ -419,6 +422,7 @@ def replay_one(tx):
 
 def generic(path):
     import re
+    path = re.sub(r"(/dict/(get|has))/.*", r"\1", path)        # the dictionary key is a concrete name
     return re.sub(r"\[\d+\]", "[]", path)
 
 
